@@ -61,7 +61,8 @@ func rulesC18(c *Ctx) {
 		pend := c.Field(pM, "Server", "pendingNotifications")
 		af := c.Std("time", "", "AfterFunc")
 		ns := c.FnObj(pM, "Server", "notifySessions")
-		nameParam := f.Param("notification")
+		c.Need(len(f.NonRecvParams()) == 2, "changeAndNotify(notification, change)")
+		nameParam, changeParam := f.NonRecvParams()[0], f.NonRecvParams()[1]
 		arm, rearm := false, false
 		for _, call := range f.CallsIn(f.Body, af, false) {
 			l := f.LitArg(call, 1)
@@ -93,7 +94,7 @@ func rulesC18(c *Ctx) {
 			guards := g.GuardsAt(g.VertexOf(call))
 			okGate = hasAtom(guards, func(a Atom) bool {
 				ce, ok := a.E.(*ast.CallExpr)
-				return ok && a.Val && f.ObjOf(ce.Fun) == types.Object(f.Param("change"))
+				return ok && a.Val && f.ObjOf(ce.Fun) == types.Object(changeParam)
 			}) && hasAtom(guards, func(a Atom) bool { ce, ok := a.E.(*ast.CallExpr); return ok && a.Val && f.IsCallTo(ce, ss) })
 		}
 		c.Check(okGate, "changeAndNotify:gated-by-change-and-capability", f, nil, "a notification is armed only if something changed and the capability allows it")
@@ -147,8 +148,14 @@ func rulesC18(c *Ctx) {
 		nf := c.Fn(pM, "Server", "notifySessions")
 		// legacy test
 		okLegacy := false
+		// the legacy recipient list is what the unconditional fan-out receives
+		var legacyVar types.Object
+		for _, call := range nf.CallsIn(nf.Body, c.FnObj(pM, "", "notifySessions"), false) {
+			legacyVar = nf.ObjOf(call.Args[0])
+		}
+		c.Need(legacyVar != nil, "notifySessions: the legacy recipient list")
 		for _, w := range Writes(nf.Body, false) {
-			if ce, ok := ast.Unparen(w.RHS).(*ast.CallExpr); ok && w.RHS != nil && nf.BuiltinName(ce) == "append" && exprStr(w.LHS) == "legacySessions" {
+			if ce, ok := ast.Unparen(w.RHS).(*ast.CallExpr); ok && w.RHS != nil && nf.BuiltinName(ce) == "append" && nf.ObjOf(w.LHS) == legacyVar {
 				g := nf.Graph()
 				okLegacy = hasAtom(g.GuardsAt(g.VertexOf(w.Stmt)), func(a Atom) bool {
 					if !a.Val {
@@ -214,9 +221,38 @@ func rulesC18(c *Ctx) {
 		as := c.Fn(pM, "Server", "allowedSubscriptions")
 		ag := as.Graph()
 		n := 0
+		wantP := as.NonRecvParams()[0]
+		capsV := as.VarFromCall(c.FnObj(pM, "Server", "capabilities"), 0)
+		var agreedV types.Object
+		for _, r := range as.Returns() {
+			if len(r.Results) == 1 {
+				agreedV = as.ObjOf(r.Results[0])
+			}
+		}
+		c.Need(capsV != nil && agreedV != nil, "allowedSubscriptions: capabilities and result variables")
+		rootedAt := func(e ast.Expr, root types.Object, last string) bool {
+			found := false
+			ast.Inspect(e, func(n ast.Node) bool {
+				if s, ok := n.(*ast.SelectorExpr); ok && s.Sel.Name == last {
+					x := ast.Unparen(s.X)
+					for {
+						if in, ok := x.(*ast.SelectorExpr); ok {
+							x = ast.Unparen(in.X)
+							continue
+						}
+						break
+					}
+					if as.ObjOf(x) == root {
+						found = true
+					}
+				}
+				return true
+			})
+			return found
+		}
 		for _, w := range Writes(as.Body, false) {
 			s, ok := ast.Unparen(w.LHS).(*ast.SelectorExpr)
-			if !ok || exprStr(s.X) != "agreed" {
+			if !ok || as.ObjOf(s.X) != agreedV {
 				continue
 			}
 			n++
@@ -226,15 +262,16 @@ func rulesC18(c *Ctx) {
 				if !a.Val {
 					return false
 				}
-				str := exprStr(a.E)
-				return strings.HasPrefix(str, "want."+field) || strings.HasPrefix(str, "len(want."+field)
+				return rootedAt(a.E, wantP, field)
 			})
 			capOK := hasAtom(guards, func(a Atom) bool {
 				if !a.Val {
 					return false
 				}
-				str := exprStr(a.E)
-				return strings.HasPrefix(str, "caps.") && (strings.HasSuffix(str, ".ListChanged") || strings.HasSuffix(str, ".Subscribe"))
+				if _, isSel := ast.Unparen(a.E).(*ast.SelectorExpr); !isSel {
+					return false
+				}
+				return rootedAt(a.E, capsV, "ListChanged") || rootedAt(a.E, capsV, "Subscribe")
 			})
 			c.Check(wantsIt && capOK, "allowedSubscriptions:"+field, as, w.Stmt, "%s is granted only when requested and the corresponding server capability is advertised (guards: %s)", field, atomsString(guards))
 		}
@@ -244,7 +281,7 @@ func rulesC18(c *Ctx) {
 		rs := c.Field(pM, "Server", "resourceSubscriptions")
 		okU := false
 		for _, w := range Writes(ru.Body, false) {
-			if m, k, ok := indexOf(w.RHS); ok && w.RHS != nil && ru.IsField(m, rs) && exprStr(k) == "params.URI" {
+			if m, k, ok := indexOf(w.RHS); ok && w.RHS != nil && ru.IsField(m, rs) && func() bool { nm, on := ru.SelectorOn(k, ru.ParamOfNamed(pM, "ResourceUpdatedNotificationParams")); return on && nm == "URI" }() {
 				subs := ru.ObjOf(w.LHS)
 				inspectNoLit(ru.Body, func(n ast.Node) {
 					if r, ok := n.(*ast.RangeStmt); ok && ru.ObjOf(r.X) == subs {
@@ -358,7 +395,14 @@ func rulesC18(c *Ctx) {
 						}
 					}
 					if fn.Name() == "invalidateKey" {
-						c.Check(exprStr(call.Args[0]) == "req.Params.URI", name+":invalidates-notified-uri", f, call, "the URI invalidated is the one named by the notification")
+						c.Check(func() bool {
+							s, ok := ast.Unparen(call.Args[0]).(*ast.SelectorExpr)
+							if !ok || s.Sel.Name != "URI" {
+								return false
+							}
+							nm, on := f.SelectorOn(s.X, f.NonRecvParams()[len(f.NonRecvParams())-1])
+							return on && nm == "Params"
+						}(), name+":invalidates-notified-uri", f, call, "the URI invalidated is the one named by the notification")
 					}
 				}
 			}
@@ -465,7 +509,7 @@ func rulesC18(c *Ctx) {
 					if fn := p.Callee(call); fn != nil && fn.Name() == "putLocked" {
 						okCmp = p.heldLocal(call)["methodCache.mu"] && hasAtom(pg.GuardsAt(v), func(a Atom) bool {
 							x, y, op, ok := binaryCmp(a.E)
-							return ok && op == token.EQL && a.Val && ((p.IsField(x, genF) && p.ObjOf(y) == types.Object(p.Param("gen"))) || (p.IsField(y, genF) && p.ObjOf(x) == types.Object(p.Param("gen"))))
+							return ok && op == token.EQL && a.Val && ((p.IsField(x, genF) && p.ObjOf(y) == types.Object(p.NonRecvParams()[0])) || (p.IsField(y, genF) && p.ObjOf(x) == types.Object(p.NonRecvParams()[0])))
 						})
 					}
 				}
